@@ -73,6 +73,14 @@ def grid(thorough: bool):
                         continue
                     out.append({"account": account, "j1": j1, "inval": inval, "j2": j2,
                                 "ops": scenario(account, j1, inval, j2)})
+    # exact lifetime boundaries (access JWT 900 s, refresh row 7 d – visible at a restart –, refresh JWT 30 d,
+    # session cookie 31 d), one second before / on / after
+    for j1 in (899, 900, 901, 30 * DAY - 1, 30 * DAY, 30 * DAY + 1, 31 * DAY - 1, 31 * DAY, 31 * DAY + 1):
+        out.append({"account": "media", "j1": j1, "inval": "none", "j2": 0, "ops": scenario("media", j1, "none", 0)})
+    for j1 in (7 * DAY - 1, 7 * DAY, 7 * DAY + 1):
+        for inval in ("none", "restart"):
+            out.append({"account": "media", "j1": j1, "inval": inval, "j2": 0,
+                        "ops": scenario("media", j1, inval, 0)})
     return out
 
 
